@@ -138,6 +138,7 @@ class Interp:
         self.unmodelled_calls = []  # (name, args, kwargs) of calls whose effect is not modelled (frame conditions must account for them)
         self.strict_standins = os.environ.get("PYVC_STRICT_STANDINS", "1") != "0"
         self.set_order_nondet = os.environ.get("PYVC_SET_ORDER", "1") != "0"   # True: iterating a native set forks over every order (C14 hash-seed independence)
+        self.inv_phase = "assume"
         self.heap_writes = []  # (SObj, field) of every attribute store on a symbolic heap object
         self.called = set()  # (rel, qualname) of every repo function interpreted on this path
         self.native_called = set()
@@ -743,6 +744,8 @@ class Interp:
             return wrap(z3.Exists([j], z3.And(j >= 0, j < container.len, term(el) == term(item))))
         if isinstance(container, SDict):
             return _sdict_contains(self, container, item)
+        if isinstance(container, SMap):
+            return _smap_contains(self, container, item)
         if isinstance(container, SObj):
             cls = self.class_of(container)
             raw = _static_getattr(cls, "__contains__")
@@ -1137,7 +1140,14 @@ class Interp:
     # loops with inductive invariants ------------------------------------------------------
     def _check_inv(self, spec, env, k, key, phase, pre=None, it=None):
         ok = True
-        for label, goal in spec.inv(self, env, k, pre, it):
+        # inv_phase tells an invariant whether it is being PROVED ("check": an existential clause may offer witness candidates) or
+        # ASSUMED ("assume": the witness is a Skolem term)
+        self.inv_phase = "check"
+        try:
+            goals = spec.inv(self, env, k, pre, it)
+        finally:
+            self.inv_phase = "assume"
+        for label, goal in goals:
             name = f"{key[0]}.loop{key[1]}.{phase}.{label}"
             ok &= self.ctx.check(name, goal, "loop invariant " + phase)
         return ok
@@ -1607,7 +1617,7 @@ class Interp:
             except AttributeError:
                 raise PyRaise(TypeError(f"'{cls.__name__}' object is not subscriptable"))
             return self.call(self._bind_class_attr(raw, c, cls), [k])
-        if isinstance(c, SDict):
+        if isinstance(c, (SDict, SMap)):
             return c.getitem(self, k)
         if isinstance(c, SStr):
             if isinstance(k, slice):
@@ -1651,7 +1661,7 @@ class Interp:
             raise PyRaise(e)
 
     def store_subscript(self, c, k, v):
-        if isinstance(c, SDict):
+        if isinstance(c, (SDict, SMap)):
             return c.setitem(self, k, v)
         if isinstance(c, SObj):
             cls = self.class_of(c)
@@ -1749,6 +1759,54 @@ class SDict(Sym):
 
     def setitem(self, interp, k, v):
         self.store[_dict_key(k)] = (k, v)
+
+
+class SMap(Sym):
+    """A Python dict with SYMBOLIC string keys (unbounded number of entries): z3 arrays key -> present, key -> value.
+    Values are scalars of one z3 sort (`mk`: z3 term -> python/symbolic value; `un`: value -> z3 term).  Mutable box, like a
+    dict.  Only what the code under contract uses is modelled: d[k] = v, d[k], d.get(k[, default]), k in d."""
+
+    def __init__(self, has, val, mk=None, un=None, name="map"):
+        self.has = has
+        self.val = val
+        self.mk = mk or wrap
+        self.un = un or term
+        self.name = name
+        self.t = None
+
+    def _key(self, k):
+        if isinstance(k, (str, SStr)):
+            return term(k)
+        return None  # a key of another type (None, int ...) is never present: only strings are stored
+
+    def getitem(self, interp, k):
+        kt = self._key(k)
+        if kt is None or not interp.ctx.branch(z3.Select(self.has, kt)):
+            raise PyRaise(KeyError(k))
+        return self.mk(z3.Select(self.val, kt))
+
+    def setitem(self, interp, k, v):
+        kt = self._key(k)
+        if kt is None:
+            raise Undecided("non-string key stored in a symbolic string-keyed dict")
+        self.has = z3.Store(self.has, kt, z3.BoolVal(True))
+        self.val = z3.Store(self.val, kt, self.un(v))
+
+
+def _smap_get(interp, d, k, default=None):
+    kt = d._key(k)
+    if kt is None:
+        return default
+    if interp.ctx.branch(z3.Select(d.has, kt)):
+        return d.mk(z3.Select(d.val, kt))
+    return default
+
+
+def _smap_contains(interp, d, k):
+    kt = d._key(k)
+    if kt is None:
+        return False
+    return wrap(z3.Select(d.has, kt))
 
 
 def _dict_key(k):
@@ -2719,4 +2777,5 @@ METHODS = {
     (SStr, "startswith"): _str_startswith, (SStr, "endswith"): _str_endswith, (SStr, "replace"): _str_replace,
     (SStr, "isalpha"): _str_isalpha, (SStr, "isalnum"): _str_isalnum, (SStr, "isdigit"): _str_isdigit,
     (SDict, "get"): _sdict_get, (SDict, "__contains__"): _sdict_contains,
+    (SMap, "get"): _smap_get, (SMap, "__contains__"): _smap_contains,
 }
